@@ -146,7 +146,7 @@ def validate(lines, timeout=900):
                                          "GenGram(m)": "NoInputs(m)", "Selected(b, kd, f)": "Never(b, kd, f)",
                                          "Exported(b, kd, f)": "Never(b, kd, f)"},
                       init="TInit", next="TNext", constraints=["Track"], postcondition="Verdicts",
-                      invariants=INVARIANTS, workers=1, timeout=timeout, env={"TRACE_FILE": path})
+                      invariants=INVARIANTS, workers=1, timeout=timeout, env={"TRACE_FILE": path, "JAVA_TOOL_OPTIONS": "-Xss64m"})
     finally:
         shutil.rmtree(d, ignore_errors=True)
     verdict = {e["tid"]: e for e in res.exports if isinstance(e, dict) and "tid" in e}
